@@ -80,6 +80,10 @@ pub struct BlockDir {
 
     /// All the blocks that are known to be present in the archive.
     exists: RwLock<HashSet<BlockHash>>,
+
+    /// Block files that were found to be empty when the directory was listed: leftovers
+    /// of an interrupted write, which are not counted as present and may be replaced.
+    empty_files: RwLock<HashSet<BlockHash>>,
 }
 
 /// Returns the transport-relative subdirectory name.
@@ -103,13 +107,14 @@ impl BlockDir {
         // As a safe conservative value, 100 blocks of 20MB each would be 2GB.
         const BLOCK_CACHE_SIZE: usize = 100;
 
-        let exists = list_blocks(&transport).await?;
+        let (exists, empty_files) = list_blocks_and_empty_files(&transport).await?;
 
         Ok(BlockDir {
             transport,
             stats: BlockDirStats::default(),
             cache: RwLock::new(LruCache::new(BLOCK_CACHE_SIZE.try_into().unwrap())),
             exists: RwLock::new(exists),
+            empty_files: RwLock::new(empty_files),
         })
     }
 
@@ -146,9 +151,16 @@ impl BlockDir {
         let hex_hash = hash.to_string();
         let relpath = block_relpath(&hash);
         self.transport.create_dir(subdir_relpath(&hex_hash)).await?;
+        // Blocks are never overwritten, with one exception: an empty file left behind by an
+        // interrupted write, as seen when the directory was listed, is completed.
+        let write_mode = if self.empty_files.read().unwrap().contains(&hash) {
+            WriteMode::Overwrite
+        } else {
+            WriteMode::CreateNew
+        };
         match self
             .transport
-            .write(&relpath, &compressed, WriteMode::CreateNew)
+            .write(&relpath, &compressed, write_mode)
             .await
         {
             Ok(()) => {}
@@ -172,6 +184,7 @@ impl BlockDir {
             .expect("Lock cache")
             .put(hash.clone(), block_data);
         self.exists.write().unwrap().insert(hash.clone());
+        self.empty_files.write().unwrap().remove(&hash);
         Ok(hash)
     }
 
@@ -357,8 +370,11 @@ async fn subdirs(transport: &Transport) -> Result<Vec<String>> {
     Ok(dirs)
 }
 
-/// Return all the blocknames in the blockdir, in arbitrary order.
-pub(crate) async fn list_blocks(transport: &Transport) -> Result<HashSet<BlockHash>> {
+/// Return the names of all the blocks in the blockdir, and separately the names of
+/// block files that are empty (and so are not counted as blocks).
+async fn list_blocks_and_empty_files(
+    transport: &Transport,
+) -> Result<(HashSet<BlockHash>, HashSet<BlockHash>)> {
     let subdirs = subdirs(transport).await?;
     let mut subdir_tasks = JoinSet::new();
     let job_limit = Arc::new(Semaphore::new(30));
@@ -371,6 +387,7 @@ pub(crate) async fn list_blocks(transport: &Transport) -> Result<HashSet<BlockHa
         });
     }
     let mut blocks = HashSet::new();
+    let mut empty_files = HashSet::new();
     while let Some(result) = subdir_tasks.join_next().await {
         let result = result.expect("await listdir result");
         match result {
@@ -383,6 +400,7 @@ pub(crate) async fn list_blocks(transport: &Transport) -> Result<HashSet<BlockHa
                                     "Empty block file in directory {:?}: {:?}",
                                     subdir_name, entry.name
                                 );
+                                empty_files.insert(hash);
                             } else if !blocks.insert(hash) {
                                 warn!(
                                     "Duplicate block name in directory {:?}: {:?}",
@@ -409,7 +427,7 @@ pub(crate) async fn list_blocks(transport: &Transport) -> Result<HashSet<BlockHa
             }
         }
     }
-    Ok(blocks)
+    Ok((blocks, empty_files))
 }
 
 #[derive(Debug, Default)]
